@@ -390,6 +390,55 @@ func init() {
 				}
 				mk1(fmt.Sprintf("basis-d%d", d), bs, bs[len(bs)-3:])
 			}
+			// batch SIZE sweep: every batch length 0..maxB (chunking / worker splitting)
+			maxB := 600
+			if tier == "thorough" {
+				maxB = 4200
+			}
+			sh = append(sh, vShard{Name: "batch-sizes", Run: func(c *vCtx) {
+				t := &vC18{c: c, cfgS: "batch-sizes"}
+				l2, _ := NewDistance(Euclidean)
+				sq, _ := NewDistance(L2Squared)
+				cs, _ := NewDistance(Cosine)
+				for _, d := range []int{1, 3, 8, 17} {
+					target := make([]float32, d)
+					for j := range target {
+						target[j] = float32(j%3) + 0.5
+					}
+					var qs [][]float32
+					for n := 0; n <= maxB; n++ {
+						if n > 0 {
+							q := make([]float32, d)
+							for j := range q {
+								q[j] = float32((n*7+j*3)%11) - 4.25
+							}
+							qs = append(qs, q)
+						}
+						for name, dist := range map[string]Distance{"l2": l2, "l2sq": sq, "cosine": cs} {
+							c.Evaluations++
+							got := dist.CalculateBatch(qs, target)
+							if len(got) != n {
+								t.bad("batch-differs-from-scalar", fmt.Sprintf("%s d=%d: batch of %d queries returned %d values", name, d, n, len(got)))
+								continue
+							}
+							for i, q := range qs {
+								if w := dist.Calculate(q, target); math.Float32bits(w) != math.Float32bits(got[i]) {
+									t.bad("batch-differs-from-scalar", fmt.Sprintf("%s d=%d: batch of %d queries, entry %d is %v, scalar %v", name, d, n, i, got[i], w))
+									break
+								}
+							}
+						}
+						c.Traces++
+					}
+					if c.Expired() {
+						c.Bound = "batch sizes: deadline"
+						return
+					}
+				}
+				c.NewState("batch-sizes")
+				c.Sample(fmt.Sprintf("every batch length 0..%d for d in {1,3,8,17}, three kinds, each entry bit-equal to Calculate", maxB))
+				c.Bound = fmt.Sprintf("batch sizes 0..%d", maxB)
+			}})
 			mk("d64", vC18High(64), vC18High(64)[:12])
 			mk("d512", vC18High(512), nil)
 			return sh
